@@ -17,6 +17,7 @@
 From Coq Require Import List NArith ZArith Bool String Ascii.
 Import ListNotations.
 From TV Require Import Lib.C21_Utf8 Lib.C21_Pct.
+From TV Require C32.Model.      (* _HTTPRequestContext._apply_xheaders, remote_ip part; qualified use only *)
 Local Open Scope N_scope.
 
 Definition text := list N.
@@ -126,7 +127,9 @@ Fixpoint hdr_add_all (m : hmap) (l : list (text * text)) : option hmap :=
 Record request := {
   r_https : bool;                      (* HTTPServer(protocol="https") / TLS: the connection's protocol *)
   r_xheaders : bool;                   (* HTTPServer(xheaders=True) *)
-  r_remote_ip : text;                  (* connection context *)
+  r_remote_ip : text;                  (* the connection's address (context.remote_ip before xheaders) *)
+  r_trusted : list text;               (* HTTPServer(trusted_downstream=...) *)
+  r_gai : list (text * bool);          (* recorded answers of socket.getaddrinfo(AI_NUMERICHOST) *)
   r_v11 : bool;                        (* HTTP/1.1 (true) or HTTP/1.0 (false) *)
   r_method : text;
   r_uri : text;
@@ -175,7 +178,8 @@ Definition rpartition1 (sep : N) (s : text) : text * bool * text :=
 (* what the server has after reading the head: the header map and the Host value.
    None = the request is answered 400 and never reaches the application. *)
 Record accepted := { q_headers : hmap; q_host : text; q_path : text; q_query : text;
-                     q_https : bool (* request.protocol == "https" *) }.
+                     q_https : bool (* request.protocol == "https" *);
+                     q_remote : text (* request.remote_ip *) }.
 
 (* httpserver._HTTPRequestContext._apply_xheaders, the protocol part (per request, undone by
    _unapply_xheaders when the request completes):
@@ -206,6 +210,24 @@ Definition effective_https (xheaders https : bool) (x_scheme x_forwarded_proto :
 
 Definition strip_value (nv : text * text) : text * text := (fst nv, strip_ws (snd nv)).
 
+(* request.remote_ip: with xheaders=True, _HTTPRequestContext._apply_xheaders as modelled for C32
+   (X-Forwarded-For walked from the right past trusted_downstream, overridden by X-Real-Ip, kept only
+   if netutil.is_valid_ip accepts it); getaddrinfo is the recorded table (an unrecorded string counts
+   as rejected: the harness records every candidate) *)
+Fixpoint gai_of (tbl : list (text * bool)) (s : text) : bool :=
+  match tbl with
+  | [] => false
+  | (k, b) :: tbl' => if text_eqb s k then b else gai_of tbl' s
+  end.
+Definition remote_spec (r : request) : text :=
+  if r_xheaders r then
+    let proto := if r_https r then C32.Model.s_https else C32.Model.s_http in
+    let c := C32.Model.mkCtx (r_remote_ip r) proto (r_remote_ip r) proto (r_trusted r) in
+    C32.Model.remote_ip
+      (C32.Model.apply_xheaders (gai_of (r_gai r)) c
+         (C32.Model.classify_headers (map strip_value (r_headers r))))
+  else r_remote_ip r.
+
 Definition accept (r : request) : option accepted :=
   if negb (is_token (r_method r)) then None
   else if negb (match r_uri r with [] => false | _ => forallb field_vchar (r_uri r) end) then None
@@ -225,7 +247,8 @@ Definition accept (r : request) : option accepted :=
             else
               let '(p, _, q) := partition1 63 (r_uri r) in
               Some {| q_headers := h; q_host := hv; q_path := p; q_query := q;
-                      q_https := effective_https (r_xheaders r) (r_https r) (hm_get k_xscheme h) (hm_get k_xfproto h) |}
+                      q_https := effective_https (r_xheaders r) (r_https r) (hm_get k_xscheme h) (hm_get k_xfproto h);
+                      q_remote := remote_spec r |}
         end
     end.
 
@@ -327,7 +350,7 @@ Definition environ (r : request) (a : accepted) : env_result :=
       EnvOk {| e_method := r_method r;
                e_path := pinfo;
                e_query := q_query a;
-               e_remote := r_remote_ip r;
+               e_remote := q_remote a;
                e_name := host;
                e_port := dec_N port;
                e_protocol := if r_v11 r then t "HTTP/1.1" else t "HTTP/1.0";
